@@ -408,7 +408,8 @@ PROPS = {
                          "Hd.Server.C09_kernel_stream", "Hd.Server.probe_served", "Hd.Server.untouched_step"],
             "streams": [SRV_STREAM, SRVK_STREAM], "rule": SRV_RULE + SRVK_RULE, "assumes": SRV_ASSUMES},
     "C02": pool_prop("HdModel.Props.C02", ["C02/"], ["Hd.Pool.C02_one_holder", "Hd.Pool.C02_held_out_of_pool", "Hd.Pool.C02_pooled_once",
-        "Hd.Pool.step_lininv", "Hd.Pool.run_lininv", "Hd.Pool.C02_single_delivery", "Hd.Pool.C02_delivered_not_idle",
+        "Hd.Pool.C02_available_means_ready", "Hd.Pool.C02_busy_not_available", "Hd.Pool.C02_handout_ready",
+        "Hd.Pool.step_lininv", "Hd.Pool.run_lininv", "Hd.Pool.step_ready", "Hd.Pool.run_ready", "Hd.Pool.C02_single_delivery", "Hd.Pool.C02_delivered_not_idle",
         "Hd.Pool.C02_handback_only_when_ready", "Hd.Pool.C02_pop_not_busy", "Hd.Pool.C02_exec_marks_busy"]),
     "C03": pool_prop("HdModel.Props.C03", ["C03/"], ["Hd.Pool.C03_cancel_releases", "Hd.Pool.C03_owner_drop_cancels",
         "Hd.Pool.C03_released_waiter_resolves", "Hd.Pool.C03_released_dialer_continues", "Hd.Pool.C03_resolves_when_attempt_done"]),
